@@ -162,14 +162,25 @@ def op_text(op):
 
 def model_traces(driver, cases):
     """Run all cases through one `dudmodel sim`; returns {case id: [step dict]}."""
-    inp = "".join(case_text(c) for c in cases).encode()
-    rc, so, se = run([driver, "sim"], inp=inp, timeout=1800)
-    if rc != 0:
-        raise BuildBroken("dudmodel sim", se.decode(errors="replace")[-2000:])
+    # the cases are independent: split them over several model processes
+    from concurrent.futures import ThreadPoolExecutor
+    nproc = max(1, min(12, (os.cpu_count() or 2) - 2, (len(cases) + 19) // 20))
+    chunks = [cases[i::nproc] for i in range(nproc)]
+
+    def one(chunk):
+        inp = "".join(case_text(c) for c in chunk).encode()
+        return run([driver, "sim"], inp=inp, timeout=3600)
+    with ThreadPoolExecutor(max_workers=nproc) as ex:
+        results = list(ex.map(one, chunks))
+    so_all = []
+    for rc, so, se in results:
+        if rc != 0:
+            raise BuildBroken("dudmodel sim", se.decode(errors="replace")[-2000:])
+        so_all.append(so.decode())
     out = {}
     cur = None
     step = None
-    for line in so.decode().splitlines():
+    for line in "".join(so_all).splitlines():
         if line.startswith("case "):
             cur = []
             out[line.split()[1]] = cur
